@@ -1,7 +1,7 @@
 (* C16 - completion proposals respect scope and syntactic position.
-   Statements only; every proof is `exact <lemma>` (Proofs/CompletionProofs.v).  The theorems are
-   about the model Model/Completion.v of lsp4spl/src/features/completion.rs and hold for ALL
-   documents (also malformed ones) and ALL cursor positions.
+   Statements only; every proof is `exact <lemma>` (Proofs/CompletionProofs.v, Proofs/ComplValid*.v).
+   The theorems are about the model Model/Completion.v of lsp4spl/src/features/completion.rs; those of
+   the first half hold for ALL documents (also malformed ones) and ALL cursor positions.
 
    PROVED: whatever `propose` answers, (1) the proposed variables are none or exactly the entries of
    the local table of the procedure ENTRY named like the declaration that contains the corrected
@@ -11,13 +11,49 @@
    every declaration the answer is the declaration starters, with the main snippet iff `main` is
    not a procedure of the table.
    (5) under the executable tree well-formedness predicate [compl_wf_b] the handler never panics.
-   NOT proved (validated by correspondence + oracle only): WHICH of the alternatives is taken at
-   which syntactic position (the position classifier), that the local table of a procedure holds
-   exactly its parameters and variables, and that [compl_wf_b] holds for the trees the parser builds
-   (the judge evaluates it on every request: command 51 adds 4 to its flag when it fails).  The full functional statement
-   ([C16_full_statement]) is stated on the model and REFUTED by a witness of the known finding
-   C16-cursor-directly-behind-token; outside the known classes it is validated by oracle only. *)
+   NOT proved for all documents: WHICH of the alternatives is taken at which syntactic position (the
+   position classifier) - on malformed documents this is validated by correspondence + oracle only; for
+   VALID programs it is proved below on the position classes where the classifier works, together with
+   the fact that the local table of a procedure holds exactly its parameters and variables.  (That
+   [compl_wf_b] holds for the trees the parser builds is Proofs/TotalCompl.v; the judge also evaluates
+   it on every request: command 51 adds 4 to its flag when it fails.)  The full functional statement
+   ([C16_full_statement]: all four position classes INCLUDING the position directly behind a token and
+   positions behind comments) is stated on the model and REFUTED by a witness of the known finding
+   C16-cursor-directly-behind-token.
+
+   PROVED in addition, for every VALID program in every layout (second half of this file; p an abstract
+   program of the grammar, G a table with [well_typed (expected p) G], t a text that lexes to p's token
+   kinds - the bridge of C14/C12/C13/C15; Proofs/ComplValid*.v), at every cursor index c in the WHITE
+   SPACE between two adjacent tokens tprev, tnext with  te tprev < c <= ts tnext  (at least one character
+   between tprev and the cursor; comments are tokens, so no comment lies between them):
+   (S) [C16_statement_position_valid]: the gap in front of a variable declaration, of a top-level
+       statement of a procedure body, or of the body's closing brace: the answer is
+       [var snippet; `var`] (iff only `;` statements stand in front) ++ [while/if snippets; `if`; `while`]
+       ++ one VARIABLE item per entry of the procedure's local table ++ one FUNCTION item per procedure
+       entry of G (declared and predefined); no type is proposed; the names of the local table are
+       exactly the parameters followed by the local variables of THIS procedure.
+   (S') [C16_nested_statement_position_valid]: the same (without the `var` starters, possibly with the
+       `else` starters in front) at the statement positions of blocks nested at any depth in a
+       top-level statement (through blocks, `if` branches, `while` bodies).  Not covered: the start of a
+       branch / loop body that is not a block (known finding C16-branch-statement-start).
+   (T) [C16_type_position_valid]: the gap behind any `:` of a procedure declaration (parameter or local
+       variable): exactly one STRUCT item per type entry of G: `int` and ALL declared types - also the
+       types declared further down in the text (the handler consults the final table).
+   [C16_type_decl_position]: inside a TYPE declaration the answer depends on the kind of tprev only:
+       behind `of` the array starters and all type entries of G; behind `]` the keyword `of`; behind `=`
+       the array starters and `int` - NO declared type (finding C16-type-decl-equals, see below);
+   [C16_proc_of_position]: behind an `of` inside a procedure declaration (`a: array [2] of |`) the
+       answer is null (finding C16-proc-array-of).
+   (G) [C16_toplevel_position_valid], [C16_toplevel_start_valid]: the gap behind the last token of a global
+       declaration (in front of the next declaration or of the end of the text) and the white space in
+       front of the first token of the text (cursor not at index 0: known finding C16-text-start): exactly
+       the four declaration starters, no `main` snippet (a valid program declares main).
+       ([C16_toplevel] above is the statement for all documents.) *)
+From Coq Require Import List PeanoNat.
 From Spl Require Import Model.Completion Proofs.CompletionProofs.
+From Spl Require Import Spec.Grammar Spec.Typing.
+From Spl Require Import Proofs.ComplValidBase Proofs.ComplValidProc Proofs.ComplValidNest Proofs.ComplValid Proofs.ComplValidTop Proofs.ComplValidEx.
+Import ListNotations.
 
 Theorem C16_shape : forall d line col r,
   propose d line col = ROk r -> shape_ok (consulted_table d line col) (d_table d) r.
@@ -119,3 +155,273 @@ Proof. vm_compute. reflexivity. Qed.
 Example C16_example_toplevel :
   c16_answer 1 0 = Some [([112; 114; 111; 99], 15); ([116; 121; 112; 101], 15); ([112; 114; 111; 99], 14); ([116; 121; 112; 101], 14)]%N.
 Proof. vm_compute. reflexivity. Qed.
+
+(* ========================================================================================== *)
+(* VALID programs, any layout: the positive functional theorems (Proofs/ComplValid*.v)          *)
+
+(* how the items read: label = the key of the table entry *)
+Theorem C16_item_labels : forall (L : ltable) (G : gtable),
+  map it_label (search_variables L) = map fst L /\
+  map it_label (search_procedures G) = map fst (filter (fun kv => is_proc_entry (snd kv)) G) /\
+  map it_label (search_types G) = map fst (filter (fun kv => is_type_entry (snd kv)) G).
+Proof. exact (fun L G => conj (variables_labels L) (conj (procedures_labels G) (types_labels G))). Qed.
+Print Assumptions C16_item_labels.
+
+(* (S) statement position: the procedure declares vs1 ++ vs2 and has the body b1 ; b2, where vs2 = [] or
+   b1 is empty; token j is the first token of vs2 / b2 / the closing brace (leading comments included),
+   token j - 1 the `{`, the `;` of the last declaration of vs1 or the last token of the last statement of b1.
+   [proc_head]: the tokens of the declaration up to and including `{`; [has_real b1]: b1 holds a
+   statement other than `;`; [aparams_names ps]: the parameter names in order. *)
+Theorem C16_statement_position_valid : forall (p : aprog) (G : gtable) (t : text) (toks : list token) (d : doc),
+  prog_ok p = true -> well_typed (expected p) G ->
+  lex t = Some toks -> map tk toks = flatten p ++ [Eof] -> new_doc_res t = ODone d ->
+  forall l1 c1 c2 x c3 ps c4 c5 vs1 vs2 b1 b2 c6 l2,
+    a_decls p = l1 ++ DProc c1 c2 x c3 ps c4 c5 (vs1 ++ vs2) (sapp b1 b2) c6 :: l2 ->
+    (vs2 = [] \/ b1 = SNil) ->
+    let j := (length (flat_map fl_decl l1) + length (proc_head c1 c2 x c3 ps c4 c5)
+              + length (flat_map fl_vardecl vs1) + length (fl_stmts b1))%nat in
+    forall tprev tnext line col,
+      nth_error toks (j - 1) = Some tprev -> nth_error toks j = Some tnext ->
+      (te tprev < get_insertion_index line col t)%N -> (get_insertion_index line col t <= ts tnext)%N ->
+      exists pe items,
+        lookup G x = Some (GProcE pe) /\
+        map fst (pe_local pe) = aparams_names ps ++ map v_x (vs1 ++ vs2) /\
+        propose d line col = ROk (Some items) /\
+        items = (if has_real b1 then [] else [snip_var; item_var]) ++ new_stmt (Some (pe_local pe)) G /\
+        filter is_var items = search_variables (pe_local pe) /\
+        filter is_fun items = search_procedures G /\
+        filter is_struct items = [].
+Proof. exact propose_statement_position. Qed.
+Print Assumptions C16_statement_position_valid.
+
+(* (S') statement positions of nested blocks: [sgap s g] (Proofs/ComplValidNest.v) - token g of the
+   top-level statement s is the first token of a statement of a block nested in s (or s itself), or of that
+   block's closing brace; [else_or_not pre]: pre = [] or pre = [else snippet; `else`] *)
+Theorem C16_nested_statement_position_valid : forall (p : aprog) (G : gtable) (t : text) (toks : list token) (d : doc),
+  prog_ok p = true -> well_typed (expected p) G ->
+  lex t = Some toks -> map tk toks = flatten p ++ [Eof] -> new_doc_res t = ODone d ->
+  forall l1 c1 c2 x c3 ps c4 c5 vs b1 s b2 c6 l2 g,
+    a_decls p = l1 ++ DProc c1 c2 x c3 ps c4 c5 vs (sapp b1 (SCons s b2)) c6 :: l2 ->
+    sgap s g ->
+    let j := (length (flat_map fl_decl l1) + length (proc_head c1 c2 x c3 ps c4 c5)
+              + length (flat_map fl_vardecl vs) + length (fl_stmts b1) + g)%nat in
+    forall tprev tnext line col,
+      nth_error toks (j - 1) = Some tprev -> nth_error toks j = Some tnext ->
+      (te tprev < get_insertion_index line col t)%N -> (get_insertion_index line col t <= ts tnext)%N ->
+      exists pe pre items,
+        lookup G x = Some (GProcE pe) /\
+        map fst (pe_local pe) = aparams_names ps ++ map v_x vs /\
+        propose d line col = ROk (Some items) /\
+        items = pre ++ new_stmt (Some (pe_local pe)) G /\ else_or_not pre /\
+        filter is_var items = search_variables (pe_local pe) /\
+        filter is_fun items = search_procedures G /\
+        filter is_struct items = [].
+Proof. exact propose_nested_statement_position. Qed.
+Print Assumptions C16_nested_statement_position_valid.
+
+(* (T) type position: behind ANY `:` token of a procedure declaration *)
+Theorem C16_type_position_valid : forall (p : aprog) (G : gtable) (t : text) (toks : list token) (d : doc),
+  prog_ok p = true -> well_typed (expected p) G ->
+  lex t = Some toks -> map tk toks = flatten p ++ [Eof] -> new_doc_res t = ODone d ->
+  forall l1 c1 c2 x c3 ps c4 c5 vs b c6 l2,
+    a_decls p = l1 ++ DProc c1 c2 x c3 ps c4 c5 vs b c6 :: l2 ->
+    let D := length (flat_map fl_decl l1) in
+    forall k tprev tnext line col,
+      (D <= k)%nat -> (S k < D + length (fl_decl (DProc c1 c2 x c3 ps c4 c5 vs b c6)))%nat ->
+      nth_error toks k = Some tprev -> tk tprev = Colon -> nth_error toks (S k) = Some tnext ->
+      (te tprev < get_insertion_index line col t)%N -> (get_insertion_index line col t <= ts tnext)%N ->
+      propose d line col = ROk (Some (search_types G)).
+Proof. exact propose_type_position. Qed.
+Print Assumptions C16_type_position_valid.
+
+(* inside a type declaration the kind of the token in front of the gap decides *)
+Theorem C16_type_decl_position : forall (p : aprog) (G : gtable) (t : text) (toks : list token) (d : doc),
+  prog_ok p = true -> well_typed (expected p) G ->
+  lex t = Some toks -> map tk toks = flatten p ++ [Eof] -> new_doc_res t = ODone d ->
+  forall l1 c1 c2 x c3 ty c4 l2,
+    a_decls p = l1 ++ DType c1 c2 x c3 ty c4 :: l2 ->
+    let D := length (flat_map fl_decl l1) in
+    forall k tprev tnext line col,
+      (D <= k)%nat -> (S k < D + length (fl_decl (DType c1 c2 x c3 ty c4)))%nat ->
+      nth_error toks k = Some tprev -> nth_error toks (S k) = Some tnext ->
+      (te tprev < get_insertion_index line col t)%N -> (get_insertion_index line col t <= ts tnext)%N ->
+      propose d line col =
+        ROk (match tk tprev with
+             | EqT => Some [snip_array; item_array; item_int]
+             | RBracket => Some [item_of]
+             | KOf => Some ([snip_array; item_array] ++ search_types G)
+             | _ => None
+             end).
+Proof. exact propose_type_decl_position. Qed.
+Print Assumptions C16_type_decl_position.
+
+(* behind an `of` of a parameter / variable declaration the answer is null *)
+Theorem C16_proc_of_position : forall (p : aprog) (G : gtable) (t : text) (toks : list token) (d : doc),
+  prog_ok p = true -> well_typed (expected p) G ->
+  lex t = Some toks -> map tk toks = flatten p ++ [Eof] -> new_doc_res t = ODone d ->
+  forall l1 c1 c2 x c3 ps c4 c5 vs b c6 l2,
+    a_decls p = l1 ++ DProc c1 c2 x c3 ps c4 c5 vs b c6 :: l2 ->
+    let D := length (flat_map fl_decl l1) in
+    forall k tprev tnext line col,
+      (D <= k)%nat -> (S k < D + length (fl_decl (DProc c1 c2 x c3 ps c4 c5 vs b c6)))%nat ->
+      nth_error toks k = Some tprev -> tk tprev = KOf -> nth_error toks (S k) = Some tnext ->
+      (te tprev < get_insertion_index line col t)%N -> (get_insertion_index line col t <= ts tnext)%N ->
+      propose d line col = ROk None.
+Proof. exact propose_proc_of_position. Qed.
+Print Assumptions C16_proc_of_position.
+
+(* (G) top level: behind the last token of the declarations l1 (token j - 1), in front of token j *)
+Theorem C16_toplevel_position_valid : forall (p : aprog) (G : gtable) (t : text) (toks : list token) (d : doc),
+  prog_ok p = true -> well_typed (expected p) G ->
+  lex t = Some toks -> map tk toks = flatten p ++ [Eof] -> new_doc_res t = ODone d ->
+  forall l1 l2, a_decls p = l1 ++ l2 ->
+    let j := length (flat_map fl_decl l1) in
+    forall tprev tnext line col,
+      (1 <= j)%nat -> nth_error toks (j - 1) = Some tprev -> nth_error toks j = Some tnext ->
+      (te tprev < get_insertion_index line col t)%N -> (get_insertion_index line col t <= ts tnext)%N ->
+      propose d line col = ROk (Some [snip_proc; snip_type; item_proc; item_type]).
+Proof. exact propose_toplevel_position. Qed.
+Print Assumptions C16_toplevel_position_valid.
+
+Theorem C16_toplevel_start_valid : forall (p : aprog) (G : gtable) (t : text) (toks : list token) (d : doc),
+  prog_ok p = true -> well_typed (expected p) G ->
+  lex t = Some toks -> map tk toks = flatten p ++ [Eof] -> new_doc_res t = ODone d ->
+  forall tnext line col,
+    nth_error toks 0 = Some tnext ->
+    (0 < get_insertion_index line col t)%N -> (get_insertion_index line col t <= ts tnext)%N ->
+    propose d line col = ROk (Some [snip_proc; snip_type; item_proc; item_type]).
+Proof. exact propose_toplevel_start. Qed.
+Print Assumptions C16_toplevel_start_valid.
+
+(* ---- non-vacuity: the theorems applied to the valid program of Proofs/ComplValidEx.v ----
+     type v = array [2] of int;
+     proc p(ref a: v, n: int) { var i: int; i := n; while (i < 2) { a[i] := i; i := i + 1; } }
+     proc main() { }
+   tokens 0-9 the type declaration, 10-53 the procedure p (10-22 its head), 54-59 main. *)
+Definition c16_tok (k : kind) (s e : N) : token := {| tk := k; ts := s; te := e; terr := [] |}.
+
+Example C16_valid_examples :
+  match lex cx_text, new_doc_res cx_text with
+  | Some toks, ODone d =>
+      (* (S) 1:47 = index 74, the gap between `i := n;` and `while`: a, n, i and all 12 procedures, no `var` *)
+      (forall line col, get_insertion_index line col cx_text = 74%N ->
+         exists items, propose d line col = ROk (Some items) /\ length items = 19%nat /\
+           map it_label (filter is_var items) = [sx_a; sx_n; sx_i] /\
+           map it_label (filter is_fun items) = map fst (filter (fun kv => is_proc_entry (snd kv)) cx_table) /\
+           filter is_struct items = [])
+      (* (S) 1:27 = index 54, the gap between `{` and `var`: the same with the `var` starters in front *)
+      /\ (forall line col, get_insertion_index line col cx_text = 54%N ->
+         exists items, propose d line col = ROk (Some (snip_var :: item_var :: items)) /\ length items = 19%nat /\
+           map it_label (filter is_var items) = [sx_a; sx_n; sx_i])
+      (* (S') 1:74 = index 101, inside the block of the loop, between `a[i] := i;` and `i := i + 1;` *)
+      /\ (forall line col, get_insertion_index line col cx_text = 101%N ->
+         exists items, propose d line col = ROk (Some items) /\
+           map it_label (filter is_var items) = [sx_a; sx_n; sx_i] /\
+           map it_label (filter is_fun items) = map fst (filter (fun kv => is_proc_entry (snd kv)) cx_table) /\
+           filter is_struct items = [])
+      (* (T) 1:20 = index 47 behind the `:` of the parameter n, 1:34 = index 61 behind the `:` of the variable i *)
+      /\ (forall line col, get_insertion_index line col cx_text = 47%N \/ get_insertion_index line col cx_text = 61%N ->
+         exists items, propose d line col = ROk (Some items) /\ map it_label items = [s_int; sx_v])
+      (* type declaration, 0:22 behind `of`: array starters, int, v;  0:9 behind `=`: array starters and int only *)
+      /\ (forall line col, get_insertion_index line col cx_text = 22%N ->
+         exists items, propose d line col = ROk (Some (snip_array :: item_array :: items)) /\ map it_label items = [s_int; sx_v])
+      /\ (forall line col, get_insertion_index line col cx_text = 9%N ->
+         propose d line col = ROk (Some [snip_array; item_array; item_int]))
+      (* (G) 2:0 = index 117, behind the line break that follows the `}` of p *)
+      /\ (forall line col, get_insertion_index line col cx_text = 117%N ->
+         propose d line col = ROk (Some [snip_proc; snip_type; item_proc; item_type]))
+  | _, _ => False
+  end.
+Proof.
+  destruct cx_layout as [Hok Hl].
+  destruct (lex cx_text) as [toks|] eqn:El; [|contradiction].
+  destruct (new_doc_res cx_text) as [d|s|] eqn:Ed;
+    [|vm_compute in Ed; discriminate Ed|vm_compute in Ed; discriminate Ed].
+  assert (Et : toks = match lex cx_text with Some x => x | None => [] end) by now rewrite El.
+  vm_compute in Et.
+  repeat split.
+  - intros line col Hi.
+    destruct (C16_statement_position_valid cx_p cx_table cx_text toks d Hok cx_well_typed El Hl Ed
+                [cx_type] cx0 cx0 sx_p cx0 cx_params cx0 cx0 [cx_var] [] (SCons cx_assign SNil) (SCons cx_while SNil) cx0 [cx_main]
+                eq_refl (or_introl eq_refl) (c16_tok Semic 72 73) (c16_tok KWhile 74 79) line col
+                ltac:(rewrite Et; reflexivity) ltac:(rewrite Et; reflexivity)
+                ltac:(rewrite Hi; reflexivity) ltac:(rewrite Hi; vm_compute; discriminate))
+      as (pe & items & Hlk & Hnames & Hp & Hitems & Fv & Ff & Fs).
+    exists items. split; [exact Hp|]. vm_compute in Hlk. injection Hlk as <-.
+    split; [rewrite Hitems; reflexivity|]. rewrite Fv, Ff, Fs. repeat split; reflexivity.
+  - intros line col Hi.
+    destruct (C16_statement_position_valid cx_p cx_table cx_text toks d Hok cx_well_typed El Hl Ed
+                [cx_type] cx0 cx0 sx_p cx0 cx_params cx0 cx0 [] [cx_var] SNil (SCons cx_assign (SCons cx_while SNil)) cx0 [cx_main]
+                eq_refl (or_intror eq_refl) (c16_tok LCurly 52 53) (c16_tok KVar 54 57) line col
+                ltac:(rewrite Et; reflexivity) ltac:(rewrite Et; reflexivity)
+                ltac:(rewrite Hi; reflexivity) ltac:(rewrite Hi; vm_compute; discriminate))
+      as (pe & items & Hlk & Hnames & Hp & Hitems & Fv & Ff & Fs).
+    vm_compute in Hlk. injection Hlk as <-. rewrite Hp, Hitems. eexists. split; [reflexivity|]. split; reflexivity.
+  - intros line col Hi.
+    destruct (C16_nested_statement_position_valid cx_p cx_table cx_text toks d Hok cx_well_typed El Hl Ed
+                [cx_type] cx0 cx0 sx_p cx0 cx_params cx0 cx0 [cx_var] (SCons cx_assign SNil) cx_while SNil cx0 [cx_main] 14%nat
+                eq_refl
+                (SG_whl cx0 cx0 _ cx0 _ _
+                   (SG_here cx0 (SCons (SAsg (AIndex (cx_nm sx_a) cx0 (cx_ef (FVar (cx_nm sx_i))) cx0) cx0 (cx_ef (FVar (cx_nm sx_i))) cx0) SNil)
+                            (SCons (SAsg (cx_nm sx_i) cx0 (CAdd (ABin (AMul (MFac (FVar (cx_nm sx_i)))) cx0 APlus (MFac (cx_lit 1)))) cx0) SNil) cx0))
+                (c16_tok Semic 99 100) (c16_tok (Ident sx_i) 101 102) line col
+                ltac:(rewrite Et; reflexivity) ltac:(rewrite Et; reflexivity)
+                ltac:(rewrite Hi; reflexivity) ltac:(rewrite Hi; vm_compute; discriminate))
+      as (pe & pre & items & Hlk & Hnames & Hp & Hitems & Hpre & Fv & Ff & Fs).
+    exists items. split; [exact Hp|]. vm_compute in Hlk. injection Hlk as <-.
+    rewrite Fv, Ff, Fs. repeat split; reflexivity.
+  - intros line col [Hi|Hi].
+    + exists (search_types cx_table). split; [|reflexivity].
+      apply (C16_type_position_valid cx_p cx_table cx_text toks d Hok cx_well_typed El Hl Ed
+               [cx_type] cx0 cx0 sx_p cx0 cx_params cx0 cx0 [cx_var] (SCons cx_assign (SCons cx_while SNil)) cx0 [cx_main]
+               eq_refl 19%nat (c16_tok Colon 45 46) (c16_tok (Ident s_int) 47 50) line col
+               ltac:(apply Nat.leb_le; reflexivity) ltac:(apply Nat.ltb_lt; reflexivity)
+               ltac:(rewrite Et; reflexivity) eq_refl ltac:(rewrite Et; reflexivity)
+               ltac:(rewrite Hi; reflexivity) ltac:(rewrite Hi; vm_compute; discriminate)).
+    + exists (search_types cx_table). split; [|reflexivity].
+      apply (C16_type_position_valid cx_p cx_table cx_text toks d Hok cx_well_typed El Hl Ed
+               [cx_type] cx0 cx0 sx_p cx0 cx_params cx0 cx0 [cx_var] (SCons cx_assign (SCons cx_while SNil)) cx0 [cx_main]
+               eq_refl 25%nat (c16_tok Colon 59 60) (c16_tok (Ident s_int) 61 64) line col
+               ltac:(apply Nat.leb_le; reflexivity) ltac:(apply Nat.ltb_lt; reflexivity)
+               ltac:(rewrite Et; reflexivity) eq_refl ltac:(rewrite Et; reflexivity)
+               ltac:(rewrite Hi; reflexivity) ltac:(rewrite Hi; vm_compute; discriminate)).
+  - intros line col Hi. exists (search_types cx_table). split; [|reflexivity].
+    rewrite (C16_type_decl_position cx_p cx_table cx_text toks d Hok cx_well_typed El Hl Ed
+               [] cx0 cx0 sx_v cx0 (TArr cx0 cx0 cx0 (LDec 2) cx0 cx0 (TName cx0 s_int)) cx0 [_; cx_main]
+               eq_refl 7%nat (c16_tok KOf 19 21) (c16_tok (Ident s_int) 22 25) line col
+               ltac:(apply Nat.leb_le; reflexivity) ltac:(apply Nat.ltb_lt; reflexivity)
+               ltac:(rewrite Et; reflexivity) ltac:(rewrite Et; reflexivity)
+               ltac:(rewrite Hi; reflexivity) ltac:(rewrite Hi; vm_compute; discriminate)); reflexivity.
+  - intros line col Hi.
+    rewrite (C16_type_decl_position cx_p cx_table cx_text toks d Hok cx_well_typed El Hl Ed
+               [] cx0 cx0 sx_v cx0 (TArr cx0 cx0 cx0 (LDec 2) cx0 cx0 (TName cx0 s_int)) cx0 [_; cx_main]
+               eq_refl 2%nat (c16_tok EqT 7 8) (c16_tok KArray 9 14) line col
+               ltac:(apply Nat.leb_le; reflexivity) ltac:(apply Nat.ltb_lt; reflexivity)
+               ltac:(rewrite Et; reflexivity) ltac:(rewrite Et; reflexivity)
+               ltac:(rewrite Hi; reflexivity) ltac:(rewrite Hi; vm_compute; discriminate)); reflexivity.
+  - intros line col Hi.
+    apply (C16_toplevel_position_valid cx_p cx_table cx_text toks d Hok cx_well_typed El Hl Ed
+             [cx_type; DProc cx0 cx0 sx_p cx0 cx_params cx0 cx0 [cx_var] (SCons cx_assign (SCons cx_while SNil)) cx0] [cx_main]
+             eq_refl (c16_tok RCurly 115 116) (c16_tok KProc 117 121) line col
+             ltac:(apply Nat.leb_le; reflexivity) ltac:(rewrite Et; reflexivity) ltac:(rewrite Et; reflexivity)
+             ltac:(rewrite Hi; reflexivity) ltac:(rewrite Hi; vm_compute; discriminate)).
+Qed.
+
+(* ... and evaluated independently of the theorems, at every cursor index of the second line *)
+Definition cx_answer (line col : N) : option (list (text * N)) :=
+  match new_doc cx_text with
+  | Done d => match propose d line col with
+              | ROk (Some items) => Some (map (fun i => (it_label i, it_kind i)) items)
+              | _ => None
+              end
+  | _ => None
+  end.
+
+Example C16_valid_examples_eval :
+  let vars l := option_map (fun l => map fst (filter (fun x => (snd x =? 6)%N) l)) l in
+  let nfun l := option_map (fun l => length (filter (fun x => (snd x =? 3)%N) l)) l in
+  map (fun c => (vars (cx_answer 1 c), nfun (cx_answer 1 c))) [27; 39; 47; 74; 87; 88]%N
+  = [(Some [sx_a; sx_n; sx_i], Some 12%nat); (Some [sx_a; sx_n; sx_i], Some 12%nat); (Some [sx_a; sx_n; sx_i], Some 12%nat);
+     (Some [sx_a; sx_n; sx_i], Some 12%nat); (Some [sx_a; sx_n; sx_i], Some 12%nat); (Some [sx_a; sx_n; sx_i], Some 12%nat)]
+  /\ map (fun c => option_map (map fst) (cx_answer 1 c)) [14; 20; 34]%N = [Some [s_int; sx_v]; Some [s_int; sx_v]; Some [s_int; sx_v]].
+Proof. vm_compute. split; reflexivity. Qed.
